@@ -478,15 +478,17 @@ def link_toward(st, src, dst):
 
 def blame_cross(st, src, dst):
     lab = link_toward(st, src, dst)
+    oc = "side_effect:other_mesh_changed"
     if lab is None:
-        return "C06.transform.isolation", "unrelated_objects_share_coordinate_storage"
+        return "C06.transform.isolation", "unrelated_objects_share_coordinate_storage", oc
     if lab == "merge":
-        return "C06.merge.isolation", "merge:result_shares_coordinate_storage_with_input"
+        return "C06.merge.isolation", "merge:result_shares_coordinate_storage_with_input", oc
     if lab == "copy":
-        return "C06.copy.no_shared_state", "copy:shares_coordinate_storage_with_source"
+        return "C06.copy.no_shared_state", "copy:shares_coordinate_storage_with_source", oc
     if lab.startswith("caller:"):
-        return "C06.transform.isolation", lab[7:] + ":mesh_shares_coordinate_storage_with_caller_array"
-    return "C06.transform.isolation", lab + ":result_shares_coordinate_storage_with_source"
+        return ("C06.transform.isolation", lab[7:] + ":mesh_shares_coordinate_storage_with_caller_array",
+                "side_effect:caller_array_changed")
+    return "C06.transform.isolation", lab + ":result_shares_coordinate_storage_with_source", oc
 
 
 def blame_within(st, x, i, j):
@@ -496,7 +498,7 @@ def blame_within(st, x, i, j):
         sv = st.live[s].real.vertices
         if i < len(sv) and j < len(sv) and vptr(sv[i]) == vptr(sv[j]):
             return blame_within(st, s, i, j)
-        return "C06.copy.no_shared_state", "copy:two_vertex_ids_share_one_coordinate_storage"
+        return "C06.copy.no_shared_state", "copy:two_vertex_ids_share_one_coordinate_storage", "mismatch:vertex_moved_twice"
     if L.kind == "merge":
         loc, off = {}, 0
         for occ, p in enumerate(L.parents):
@@ -510,9 +512,11 @@ def blame_within(st, x, i, j):
             if oi == oj or (pi == pj and si != sj):
                 return blame_within(st, pi, si, sj)
             if pi == pj:
-                return "C06.merge.same_mesh_twice", "merge([a,a]):both_occurrences_share_coordinate_storage"
+                return ("C06.merge.same_mesh_twice", "merge([a,a]):both_occurrences_share_coordinate_storage",
+                        "mismatch:vertex_moved_twice")
             return blame_cross(st, ("m", pi), ("m", pj))
-    return "C06.transform.each_vertex_once", L.label + ":two_vertex_ids_share_one_coordinate_storage"
+    return ("C06.transform.each_vertex_once", L.label + ":two_vertex_ids_share_one_coordinate_storage",
+            "mismatch:vertex_moved_twice")
 
 
 # ---------------------------------------------------------------------------------------------------
@@ -647,7 +651,7 @@ class Run:
         return evs
 
     # -- comparing every live object with its model ----------------------------------------------
-    def compare_all(self, st, ev, targets, skip=()):
+    def compare_all(self, st, ev, targets, skip=(), pre=None):
         """-> True if anything was reported.  targets = indices of the meshes the event is allowed to change"""
         import numpy as np
         rep = self.rep
@@ -706,23 +710,21 @@ class Run:
         tgt = targets[0] if (targets and kind in TRANSFORMS) else None
         slots = {}
         if tgt is not None:
-            for i, v in enumerate(st.live[tgt].real.vertices):
-                slots.setdefault(vptr(v), []).append(i)
+            for i, p in enumerate(pre[tgt]):
+                slots.setdefault(p, []).append(i)
         done = set()
         for y, j, p, q in mism:
             L = st.live[y]
             others = []
             if tgt is not None and p is not None:
-                others = [i for i in slots.get(vptr(L.real.vertices[j]), ()) if not (y == tgt and i == j)]
+                others = [i for i in slots.get(pre[y][j], ()) if not (y == tgt and i == j)]
             det = {"event": list(ev), "mesh": y, "mesh_producer": L.label, "vertex": j, "got": p,
                    "want": None if q is None else [float(c) for c in q]}
             if others:
                 if y == tgt:
-                    sub, icls = blame_within(st, y, others[0], j)
-                    vk = "mismatch:vertex_moved_twice"
+                    sub, icls, vk = blame_within(st, y, others[0], j)
                 else:
-                    sub, icls = blame_cross(st, ("m", tgt), ("m", y))
-                    vk = "side_effect:other_mesh_changed"
+                    sub, icls, vk = blame_cross(st, ("m", tgt), ("m", y))
                 det.update(target=tgt, target_producer=st.live[tgt].label, shares_storage_with_target_vertex=others[0])
                 fp = (sub, PRIMITIVE[kind], vk, icls)
             elif y in targets and kind in TRANSFORMS:
@@ -747,8 +749,8 @@ class Run:
             det = {"event": list(ev), "caller_array_of": c.label, "rows_changed": rows, "now": c.arr.tolist(),
                    "was": c.snap.tolist()}
             if explained:
-                sub, icls = blame_cross(st, ("m", tgt), ("c", k))
-                fp = (sub, PRIMITIVE[kind], "side_effect:caller_array_changed", icls)
+                sub, icls, vk = blame_cross(st, ("m", tgt), ("c", k))
+                fp = (sub, PRIMITIVE[kind], vk, icls)
             else:
                 fp = (f"C06.{kind}.isolation" if kind not in TRANSFORMS else "C06.transform.isolation", callee,
                       "side_effect:caller_array_changed", "no_shared_storage")
@@ -815,6 +817,7 @@ class Run:
               "scale_xyz": M.transform.scale_xyz, "normalize": M.transform.normalize,
               "to_origin": M.transform.translate_to_origin, "flatten": M.transform.flatten}[kind]
         before, _ = read_vertices(X.real)
+        pre = [[vptr(v) for v in L.real.vertices] for L in st.live] if check else None
         a, kw, watch = self._real_args(ev)
         o = call(fn, X.real, *a, **kw)
         prev = st.prev
@@ -836,7 +839,7 @@ class Run:
             return False
         rep.flag("event:" + kind)
         rep.count("transform_events")
-        bad = self.compare_all(st, ev, [i])
+        bad = self.compare_all(st, ev, [i], pre=pre)
         for arr, want in watch:
             if [float(c) for c in arr] != want:
                 self.viol("C06.transform.isolation", CALLEE[kind], "side_effect:argument_changed", param_class(ev),
